@@ -5,8 +5,8 @@ use std::sync::Arc;
 use crate::driver::{Batch, Plan};
 use crate::scen::{Scenario, Tier};
 use crate::scen_fault::FailStop;
-use crate::scen_foreign::{ForeignOpen, LazyOpen, PartialOpen};
-use crate::scen_hist::History;
+use crate::scen_foreign::{Fixtures, ForeignOpen, LazyOpen, PartialOpen};
+use crate::scen_hist::{History, HistoryEnum};
 use crate::scen_hostile::{HostileCorpus, HostileMutate, HostileSweep};
 use crate::scen_life::Lifecycle;
 use crate::scen_misc::{Codec, HeaderFaults, HeaderRandom, Rejections};
@@ -40,13 +40,13 @@ pub fn plan(prop: &str, tier: Tier) -> Option<Plan> {
         }
         "C10" => {
             assumptions.push("64-bit content-hash collisions among generated contents are assumed not to occur".into());
-            ("C10", "exploration", vec![b(Lifecycle { prop: "C10", huge_pct: 1, window_pct: 0 }, 6000, 200_000, t), b(History { prop: "C10" }, 20_000, 1_000_000, t)])
+            ("C10", "exploration", vec![b(Lifecycle { prop: "C10", huge_pct: 1, window_pct: 0 }, 6000, 200_000, t), b(History { prop: "C10" }, 20_000, 1_000_000, t), b(HistoryEnum { prop: "C10" }, 0, 0, t)])
         }
-        "C04" => ("C04", "exploration", vec![b(History { prop: "C04" }, 40_000, 3_000_000, t)]),
+        "C04" => ("C04", "exploration", vec![b(HistoryEnum { prop: "C04" }, 0, 0, t), b(History { prop: "C04" }, 40_000, 3_000_000, t)]),
         "C06" => ("C06", "exploration", vec![b(SpillUtil, 1800, 120_000, t), b(Lifecycle { prop: "C06", huge_pct: 30, window_pct: 40 }, 400, 20_000, t)]),
         "C03" => {
             assumptions.push("foreign archives come from the independent spec-level writer; each generated image is first accepted by the independent validator".into());
-            ("C03", "exploration", vec![b(ForeignOpen, 8000, 400_000, t)])
+            ("C03", "exploration", vec![b(Fixtures, 0, 0, t), b(ForeignOpen, 8000, 400_000, t)])
         }
         "C11" => ("C11", "exploration", vec![b(PartialOpen, 4000, 300_000, t)]),
         "C20" => ("C20", "exploration", vec![b(LazyOpen, 8000, 400_000, t)]),
